@@ -524,6 +524,9 @@ func (r *ruler) v6() {
 	// YIELD: value handed to the parent; kept on the yielding stack iff src1 != 0
 	for _, pa := range r.normal("YIELD") {
 		key := r.key("YIELD", "value hand-over: "+strings.Join(pa.Conds[:min(2, len(pa.Conds))], ", "))
+		if len(condsWith(pa, "(A1,0)")) == 0 {
+			r.s.Bad("V8", r.key("YIELD", "value kept iff src1 != 0: "+pa.Conds[0]), r.ppos(pa), "whether a yield keeps its value on the yielding context's own stack must depend on src1 alone, on every path (with or without an enclosing loop): the compiler counts on one value being left exactly when it set src1", pa.Describe()...)
+		}
 		ps := events(pa, "call", ".Push")
 		var want []string
 		if condHas(pa, "!=(A1,0) := true") {
